@@ -30,9 +30,11 @@ VARIABLES
   obj,       \* durable bucket objects: [Buckets \X Nat -> content or "none"]
   dMan,      \* durable manifest
   fl,        \* flush in progress: [st, gen, snap, todo, man, obsolete]
+  saved,     \* in-memory last_saved_version
+  dVer,      \* version recorded in the durable metadata
   committed  \* ghost: the content at the last manifest commit
 
-mvars == <<post, home, dirty, version, mMan, obj, dMan, fl, committed>>
+mvars == <<post, home, dirty, version, mMan, obj, dMan, fl, saved, dVer, committed>>
 
 NoFlush == [st |-> "idle"]
 Content(b) == [k \in Keys |-> IF home[k] = b THEN post[k] ELSE {}]
@@ -44,7 +46,7 @@ Init ==
   /\ dirty = {} /\ version = 1
   /\ mMan = [b \in Buckets |-> 0] /\ dMan = [b \in Buckets |-> 0]
   /\ obj = [p \in Buckets \X Gens |-> Absent]
-  /\ fl = NoFlush /\ committed = Empty
+  /\ fl = NoFlush /\ saved = 0 /\ dVer = 0 /\ committed = Empty
 
 \* what a loader sees: exactly the objects the durable manifest names
 Loaded == [k \in Keys |-> UNION {obj[<<b, dMan[b]>>][k] : b \in {c \in Buckets : dMan[c] # 0}}]
@@ -56,14 +58,14 @@ Insert(k, id) ==
   /\ post' = [post EXCEPT ![k] = @ \cup {id}]
   /\ dirty' = dirty \cup {home[k]}                 \* the bucket that OWNS the key becomes dirty
   /\ version' = version + 1
-  /\ UNCHANGED <<home, mMan, obj, dMan, fl, committed>>
+  /\ UNCHANGED <<home, mMan, obj, dMan, fl, saved, dVer, committed>>
 
 Remove(k, id) ==
   /\ fl.st = "idle" /\ version < MaxVersion /\ id \in post[k]
   /\ post' = [post EXCEPT ![k] = @ \ {id}]
   /\ dirty' = dirty \cup {home[k]}
   /\ version' = version + 1
-  /\ UNCHANGED <<home, mMan, obj, dMan, fl, committed>>
+  /\ UNCHANGED <<home, mMan, obj, dMan, fl, saved, dVer, committed>>
 
 \* a growing posting spills into another bucket: both buckets change
 Migrate(k, b) ==
@@ -71,60 +73,72 @@ Migrate(k, b) ==
   /\ home' = [home EXCEPT ![k] = b]
   /\ dirty' = dirty \cup {home[k], b}
   /\ version' = version + 1
-  /\ UNCHANGED <<post, mMan, obj, dMan, fl, committed>>
+  /\ UNCHANGED <<post, mMan, obj, dMan, fl, saved, dVer, committed>>
 
 \* compaction re-bins every key; every bucket is dirty afterwards
 Compact(h) ==
   /\ fl.st = "idle" /\ version < MaxVersion /\ h \in [Keys -> Buckets] /\ h # home
   /\ home' = h /\ dirty' = Buckets /\ version' = version + 1
-  /\ UNCHANGED <<post, mMan, obj, dMan, fl, committed>>
+  /\ UNCHANGED <<post, mMan, obj, dMan, fl, saved, dVer, committed>>
 
 ---------------------------------------------------------------------------
 (* flush *)
-FlushSnapshot ==
-  /\ fl.st = "idle" /\ dirty # {}
-  /\ LET man == [b \in Buckets |-> IF b \in dirty THEN version ELSE mMan[b]] IN
-     fl' = [st |-> "writing", gen |-> version, snap |-> [b \in dirty |-> Content(b)], todo |-> dirty,
-            man |-> man, post |-> post,
-            obsolete |-> {<<b, mMan[b]>> : b \in {c \in Buckets : mMan[c] # 0 /\ man[c] # mMan[c]}}]
-  /\ UNCHANGED <<post, home, dirty, version, mMan, obj, dMan, committed>>
+\* generation of this flush: the metadata version, bumped first when nothing but a load-time repair
+\* made buckets dirty (flush_owned_with: "force a fresh version in that case")
+FlushGen == IF version = saved THEN version + 1 ELSE version
 
+\* `drop`: dirty buckets that no longer exist in memory (compaction leftovers) leave the manifest
+\* instead of being rewritten; only empty ones can
+FlushSnapshot(drop) ==
+  /\ fl.st = "idle" /\ FlushGen <= MaxVersion
+  /\ drop \subseteq {b \in dirty : Content(b) = Empty}
+  /\ LET g == FlushGen
+         man == [b \in Buckets |-> IF b \in drop THEN 0 ELSE IF b \in dirty THEN g ELSE mMan[b]] IN
+     /\ fl' = [st |-> "writing", gen |-> g, snap |-> [b \in dirty \ drop |-> Content(b)], todo |-> dirty \ drop,
+               flushed |-> dirty, man |-> man, post |-> post,
+               obsolete |-> {<<b, mMan[b]>> : b \in {c \in Buckets : mMan[c] # 0 /\ man[c] # mMan[c]}}]
+     /\ version' = g
+  /\ UNCHANGED <<post, home, dirty, mMan, obj, dMan, saved, dVer, committed>>
+
+\* "create/overwrite the object addressed by (bucket, generation)": never one the durable manifest names
 WriteBucket(b) ==
   /\ fl.st = "writing" /\ b \in fl.todo
+  /\ dMan[b] # fl.gen
   /\ obj' = [obj EXCEPT ![<<b, fl.gen>>] = fl.snap[b]]
   /\ fl' = [fl EXCEPT !.todo = @ \ {b}]
-  /\ UNCHANGED <<post, home, dirty, version, mMan, dMan, committed>>
+  /\ UNCHANGED <<post, home, dirty, version, mMan, dMan, saved, dVer, committed>>
 
 CommitManifest ==
   /\ fl.st = "writing" /\ fl.todo = {}
-  /\ dMan' = fl.man
+  /\ dMan' = fl.man /\ dVer' = fl.gen
   /\ committed' = fl.post
   /\ fl' = [fl EXCEPT !.st = "committed"]
-  /\ UNCHANGED <<post, home, dirty, version, mMan, obj>>
+  /\ UNCHANGED <<post, home, dirty, version, mMan, obj, saved>>
 
 Publish ==
   /\ fl.st = "committed"
-  /\ mMan' = fl.man
-  /\ dirty' = dirty \ DOMAIN fl.snap
+  /\ mMan' = fl.man /\ saved' = fl.gen
+  /\ dirty' = dirty \ fl.flushed
   /\ fl' = [fl EXCEPT !.st = "cleanup"]
-  /\ UNCHANGED <<post, home, version, obj, dMan, committed>>
+  /\ UNCHANGED <<post, home, version, obj, dMan, dVer, committed>>
 
 DeleteObsolete(o) ==
   /\ fl.st = "cleanup" /\ o \in fl.obsolete
   /\ obj' = [obj EXCEPT ![o] = Absent]
   /\ fl' = [fl EXCEPT !.obsolete = @ \ {o}]
-  /\ UNCHANGED <<post, home, dirty, version, mMan, dMan, committed>>
+  /\ UNCHANGED <<post, home, dirty, version, mMan, dMan, saved, dVer, committed>>
 
 FlushEnd ==
   /\ fl.st = "cleanup"            \* deletions are best effort: the flush may end with leftovers
   /\ fl' = NoFlush
-  /\ UNCHANGED <<post, home, dirty, version, mMan, obj, dMan, committed>>
+  /\ UNCHANGED <<post, home, dirty, version, mMan, obj, dMan, saved, dVer, committed>>
 
-\* a failed flush (any callback error) leaves everything dirty and is retried at a later generation
+\* a failed flush (any callback error) commits nothing; everything stays dirty and the retry reuses the
+\* generation unless a mutation intervenes (rewriting unreferenced garbage)
 FlushFail ==
-  /\ fl.st = "writing" /\ version < MaxVersion
-  /\ fl' = NoFlush /\ version' = version + 1
-  /\ UNCHANGED <<post, home, dirty, mMan, obj, dMan, committed>>
+  /\ fl.st = "writing"
+  /\ fl' = NoFlush
+  /\ UNCHANGED <<post, home, dirty, version, mMan, obj, dMan, saved, dVer, committed>>
 
 ---------------------------------------------------------------------------
 (* crash + load: memory becomes what the durable manifest describes; every key sits in the bucket *)
@@ -135,7 +149,18 @@ Crash ==
                             THEN CHOOSE b \in Buckets : dMan[b] # 0 /\ obj[<<b, dMan[b]>>][k] # {}
                             ELSE home[k]]
   /\ dirty' = {} /\ mMan' = dMan /\ fl' = NoFlush
-  /\ UNCHANGED <<version, obj, dMan, committed>>
+  /\ version' = (IF dVer = 0 THEN 1 ELSE dVer) /\ saved' = dVer     \* nothing committed: a new index
+  /\ UNCHANGED <<obj, dMan, dVer, committed>>
+
+---------------------------------------------------------------------------
+(* What a whole index operation (any composition of the mutations above) must satisfy; the trace  *)
+(* specifications check it for every recorded call of the real index.                              *)
+MutationOK ==
+  \* a bucket leaves the dirty set only by ceasing to exist without ever having been persisted
+  /\ \A b \in dirty \ dirty' : mMan[b] = 0 /\ Content(b)' = Empty
+  /\ \A b \in Buckets : Content(b)' # Content(b) => b \in dirty' \/ (mMan[b] = 0 /\ Content(b)' = Empty)
+  /\ version' > version
+  /\ UNCHANGED <<mMan, obj, dMan, saved, dVer, committed>>
 
 ---------------------------------------------------------------------------
 (* C10 / C11 *)
